@@ -672,6 +672,76 @@ fn mocked_provided_cells(t: &mut Tally<'_>) {
     use embedded_hal::delay::DelayNs;
     use unimock::mock::embedded_hal_1::delay::DelayNsMock;
     use unimock::mock::std::io::{ReadMock, WriteMock};
+    // formatting macros go through a write_all that is scripted itself, exactly as they go through
+    // an overridden write_all of a hand-written impl
+    {
+        struct OverridesWriteAll(Vec<String>);
+        impl Write for OverridesWriteAll {
+            fn write(&mut self, buf: &[u8]) -> io::Result<usize> {
+                self.0.push(format!("write({buf:?})"));
+                Ok(buf.len())
+            }
+            fn flush(&mut self) -> io::Result<()> {
+                Ok(())
+            }
+            fn write_all(&mut self, buf: &[u8]) -> io::Result<()> {
+                self.0.push(format!("write_all({buf:?})"));
+                Ok(())
+            }
+        }
+        let mut plain = OverridesWriteAll(vec![]);
+        let r = write!(plain, "a{}b", 7);
+        let want = format!("{} {:?}", show(&r), plain.0);
+        let sh = script(&[]);
+        let (a, b) = (sh.clone(), sh.clone());
+        let got = catch(|| {
+            let mut u = Unimock::new((
+                WriteMock::write_all.each_call(matching!(_)).answers_arc(Arc::new(move |_: &mut Unimock, buf: &[u8]| {
+                    next(&a, format!("write_all({buf:?})"));
+                    Ok(())
+                })),
+                WriteMock::write.each_call(matching!(_)).answers_arc(Arc::new(move |_: &mut Unimock, buf: &[u8]| {
+                    next(&b, format!("write({buf:?})"));
+                    Ok(buf.len())
+                })),
+            ))
+            .no_verify_in_drop();
+            show(&write!(u, "a{}b", 7))
+        });
+        let got = got.map(|r| format!("{r} {:?}", log_of(&sh)));
+        t.ctx.tick();
+        t.stats.add("traces_validated_against_impl", 1);
+        t.stats.add("mocked_provided_cells", 1);
+        if got.as_ref() != Ok(&want) {
+            t.ctx.violation(
+                "mocked-provided:write! over a scripted write_all",
+                &format!("write! over a scripted write_all: a hand-written impl overriding write_all gives {want:?}, the mock gave {got:?}"),
+                J::obj().set("what", "write! over a scripted write_all"),
+            );
+        }
+    }
+    // a provided method listed only to say "run the upstream body" is counted as called
+    {
+        let got = catch(|| {
+            let mut u = Unimock::new((
+                WriteMock::write_all.each_call(matching!(_)).applies_default_impl(),
+                WriteMock::write.each_call(matching!(_)).answers(&|_, buf| Ok(buf.len())),
+            ));
+            let r = u.write_all(b"xy");
+            let verdict = catch(move || drop(u));
+            format!("{} {verdict:?}", show(&r))
+        });
+        t.ctx.tick();
+        t.stats.add("traces_validated_against_impl", 1);
+        t.stats.add("mocked_provided_cells", 1);
+        if got.as_deref() != Ok("Ok(()) Ok(())") {
+            t.ctx.violation(
+                "mocked-provided:applies_default_impl listing is counted",
+                &format!("write_all listed with an unquantified applies_default_impl() clause, called once, then verified: expected \"Ok(()) Ok(())\", the mock gave {got:?}"),
+                J::obj().set("what", "applies_default_impl listing"),
+            );
+        }
+    }
     let mut cell = |name: &str, got: Result<String, String>, log: Vec<String>, want_ok: Option<&str>, needle: &str| {
         t.ctx.tick();
         t.stats.add("traces_validated_against_impl", 1);
